@@ -643,6 +643,12 @@ NET_TWINS = {
     "InetAddress_ctor_family6": "Definition InetAddress_ctor_family6 : Z := 10.",
     "InetAddress_ipv6_marker": "Definition InetAddress_ipv6_marker : Z := 58.",
     "InetAddress_port": "Definition InetAddress_port (portNetEndian : Z) : Z := (Endian_networkToHost16 portNetEndian).",
+    "InetAddress_toIp_bufsize": "Definition InetAddress_toIp_bufsize : Z := 64.",
+    "InetAddress_toIpPort_bufsize": "Definition InetAddress_toIpPort_bufsize : Z := 64.",
+    "SocketsOps_toIp_need4": "Definition SocketsOps_toIp_need4 : Z := 16.",
+    "SocketsOps_toIp_need6": "Definition SocketsOps_toIp_need6 : Z := 46.",
+    "SocketsOps_toIpPort_v6_off": "Definition SocketsOps_toIpPort_v6_off : Z := 1.",
+    "InetAddress_setScopeId_family": "Definition InetAddress_setScopeId_family : Z := 10.",
 }
 
 
@@ -971,6 +977,99 @@ def main_net():
     emit("InetAddress_ctor_family4", lambda: ctor_family(4, "sin_family", "InetAddress_ctor_family4"))
     emit("InetAddress_ctor_family6", lambda: ctor_family(6, "sin6_family", "InetAddress_ctor_family6"))
 
+
+    # ---- buffers: InetAddress::toIp / toIpPort scratch arrays, the size checks of sockets::toIp,
+    #      the offset sockets::toIpPort applies for the '[' ; InetAddress::setScopeId
+    def bufsize(method, gname):
+        fn = one(fn_candidates(IA, "muduo::net::InetAddress::" + method), method)
+        vd = one(list(cxxast.find(cxxast.body(fn), "VarDecl", "buf")), "declarations of buf")
+        mm = re.match(r"char\[(\d+)\]$", vd.get("type", {}).get("qualType", ""))
+        if not mm:
+            raise Untranslatable("buf is not a char array")
+        n, src = int(mm.group(1)), cxxast.src_text(vd, IA)
+        calls = [c for c in cxxast.find(cxxast.body(fn), "CallExpr") if cxxast.strip(kids(c)[0]).get("referencedDecl", {}).get("name") == method]
+        c = one(calls, "call of sockets::" + method)
+        a = kids(c)
+        if cxxast.strip(a[1]).get("referencedDecl", {}).get("name") != "buf":
+            raise Untranslatable("first argument is not buf")
+        sz = cxxast.strip(a[2])
+        if sz.get("kind") != "UnaryExprOrTypeTraitExpr" or sz.get("name") != "sizeof" or \
+           [x.get("referencedDecl", {}).get("name") for x in cxxast.find(sz, "DeclRefExpr")] != ["buf"]:
+            raise Untranslatable("size argument is not sizeof buf")
+        return "Definition %s : Z := %d." % (gname, n), IA + ": " + src + "; " + cxxast.src_text(c, IA)
+    emit("InetAddress_toIp_bufsize", lambda: bufsize("toIp", "InetAddress_toIp_bufsize"))
+    emit("InetAddress_toIpPort_bufsize", lambda: bufsize("toIpPort", "InetAddress_toIpPort_bufsize"))
+
+    def assert_conds(n):
+        """conditions of the assert(...) statements directly inside the statement list"""
+        out_ = []
+        for s_ in stmts_of(n):
+            if any(x.get("kind") == "DeclRefExpr" and x.get("referencedDecl", {}).get("name") == "__assert_fail" for x in cxxast.walk(s_)) \
+               and s_.get("kind") in ("ParenExpr", "ExprWithCleanups", "ConditionalOperator"):
+                co = [x for x in cxxast.walk(s_) if x.get("kind") == "ConditionalOperator"]
+                out_.append(cxxast.strip(kids(co[0])[0]))
+        return out_
+
+    def toip_need(which):
+        fn = one(fn_candidates(SO, "muduo::net::sockets::toIp"), "toIp")
+        i1 = one([s_ for s_ in kids(cxxast.body(fn)) if s_.get("kind") == "IfStmt"], "if statements of toIp")
+        ks = kids(i1)
+        branches = [(family_test(ks[0]), ks[1])]
+        if len(ks) == 3 and ks[2].get("kind") == "IfStmt":
+            k2 = kids(ks[2])
+            branches.append((family_test(k2[0]), k2[1]))
+        want = 2 if which == 4 else 10
+        for fam, blk_ in branches:
+            if fam == want:
+                cs = assert_conds(blk_)
+                c = one(cs, "assert in the branch")
+                if c.get("kind") == "BinaryOperator" and c.get("opcode") == ">=" and \
+                   cxxast.strip(kids(c)[0]).get("referencedDecl", {}).get("name") == "size":
+                    return "Definition SocketsOps_toIp_need%d : Z := %d." % (which, cxxast.const_eval(kids(c)[1])), SO + ": assert(size >= ...) before inet_ntop"
+        raise Untranslatable("no size assertion for family %d" % want)
+    emit("SocketsOps_toIp_need4", lambda: toip_need(4))
+    emit("SocketsOps_toIp_need6", lambda: toip_need(6))
+
+    def v6_off():
+        calls = [c for s_ in toipport()["then"] for c in cxxast.find(s_, "CallExpr")
+                 if cxxast.strip(kids(c)[0]).get("referencedDecl", {}).get("name") == "toIp"]
+        c = one(calls, "toIp call in the AF_INET6 branch")
+        a = [cxxast.strip(x) for x in kids(c)[1:]]
+        if a[0].get("kind") != "BinaryOperator" or a[0].get("opcode") != "+" or a[1].get("kind") != "BinaryOperator" or a[1].get("opcode") != "-":
+            raise Untranslatable("arguments are not buf+k, size-k")
+        if cxxast.strip(kids(a[0])[0]).get("referencedDecl", {}).get("name") != "buf" or cxxast.strip(kids(a[1])[0]).get("referencedDecl", {}).get("name") != "size":
+            raise Untranslatable("arguments are not buf+k, size-k")
+        k1, k2 = cxxast.const_eval(kids(a[0])[1]), cxxast.const_eval(kids(a[1])[1])
+        if k1 != k2:
+            raise Untranslatable("pointer advanced by %d but size reduced by %d" % (k1, k2))
+        # the room checks `assert(size > end)` of both branches
+        for nm, blk_ in (("AF_INET6 branch", toipport()["then"]), ("AF_INET branch", toipport()["top"])):
+            ok = False
+            for s_ in blk_:
+                for c2 in assert_conds(s_) if s_.get("kind") not in ("IfStmt",) else []:
+                    if c2.get("kind") == "BinaryOperator" and c2.get("opcode") == ">" and \
+                       [cxxast.strip(x).get("referencedDecl", {}).get("name") for x in kids(c2)] == ["size", "end"]:
+                        ok = True
+            if not ok:
+                raise Untranslatable("no assert(size > end) in the " + nm)
+        return "Definition SocketsOps_toIpPort_v6_off : Z := %d." % k1, SO + ": " + cxxast.src_text(c, SO) + "; assert(size > end) in both branches"
+    emit("SocketsOps_toIpPort_v6_off", v6_off)
+
+    def scope():
+        fn = one(fn_candidates(IA, "muduo::net::InetAddress::setScopeId"), "setScopeId")
+        st = kids(cxxast.body(fn))
+        i1 = one(st, "statements of setScopeId")
+        if i1.get("kind") != "IfStmt" or len(kids(i1)) != 2:
+            raise Untranslatable("shape of setScopeId")
+        c = cxxast.strip(kids(i1)[0])
+        if c.get("kind") != "BinaryOperator" or c.get("opcode") != "==" or not [m for m in cxxast.find(kids(c)[0], "MemberExpr") if m.get("name") == "family"]:
+            raise Untranslatable("condition is not family() == F")
+        r = one(assigned(stmts_of(kids(i1)[1]), "sin6_scope_id"), "assignments to sin6_scope_id")
+        if cxxast.strip(r).get("referencedDecl", {}).get("name") != "scope_id":
+            raise Untranslatable("stored value is not the argument")
+        return "Definition InetAddress_setScopeId_family : Z := %d." % cxxast.const_eval(kids(c)[1]), IA + ": " + cxxast.src_text(fn, IA)
+    emit("InetAddress_setScopeId_family", scope)
+
     def marker():
         c, cond, then, els = ctor("void (muduo::StringArg, uint16_t, bool)")
         cn = cxxast.strip(cond)
@@ -1022,7 +1121,998 @@ def json_string(v):
     raise Untranslatable("string literal value")
 
 
+# ==========================================================================================
+# third output: coq/Gen_C20Tz.v -- TimeZone::Data::findLocalTime (both overloads), translated by
+# symbolic execution of the statements of the C++ (clang JSON AST):
+#   * an iterator into `transitions` is its index (nat), `transitions.begin()` = 0, `.end()` = n,
+#     `--it` / `it - k` subtract, `*it` / `it->` select the element at that index;
+#   * a Transition value is either the element at an index or a locally constructed one (the sentry:
+#     field values taken from the constructor's initialiser list); a `const LocalTime*` is the index of
+#     the record it points to (`&localtimes[k]` = k, `&localtimes.front()` = 0), and the function's
+#     result is that index;
+#   * `std::upper_bound(begin, end, sentry, Cmp())` over the whole vector is `upper_bound key column`
+#     (C20_Model: the libstdc++ loop), the column and the key being read off the body of Cmp::operator();
+#   * every declaration / assignment binds a fresh canonical name (v1, v2, ...), so renaming a local or
+#     introducing a temporary changes nothing or only adds a `let`; `if` duplicates the continuation, the
+#     result is a decision tree whose leaves are the returned record indices; assert(...) is skipped.
+# Anything outside these forms: FALLBACK (the hand-written twin is emitted, the obligation is reported).
+
+TZ_PRELUDE = """From Coq Require Import List ZArith Bool Arith.
+From Muduo Require Import C20_Model.
+Import ListNotations.
+Local Open Scope Z_scope.
+Local Open Scope bool_scope.
+
+(* int (32-bit two's complement) *)
+Definition fits_int (x : Z) : bool := (-2147483648 <=? x) && (x <=? 2147483647).
+"""
+
+TZ_TWINS = {
+    "findLocalTime_utc": """Definition findLocalTime_utc (tb : tzdata) (utcTime : Z) : nat := find_utc tb utcTime.""",
+    "findLocalTime_local": """Definition findLocalTime_local (tb : tzdata) (lt : DateTime) (postTransition : bool) : nat :=
+  find_local tb (fromUtc lt) postTransition.""",
+    "addTransition_localtime": """Definition addTransition_localtime (tb : tzdata) (utcTime : Z) (localtimeIdx : nat) : Z :=
+  utcTime + off_of tb localtimeIdx.""",
+    "readDataBlock_reject": """Definition readDataBlock_reject (isutccnt isstdcnt leapcnt timecnt typecnt charcnt : Z) : bool :=
+  (negb (leapcnt =? 0)) || ((negb (isutccnt =? 0)) && (negb (isutccnt =? typecnt))) || ((negb (isstdcnt =? 0)) && (negb (isstdcnt =? typecnt))).""",
+    "readDataBlock_reserve_times": "Definition readDataBlock_reserve_times (isutccnt isstdcnt leapcnt timecnt typecnt charcnt : Z) : Z := timecnt.",
+    "readDataBlock_ntimes": "Definition readDataBlock_ntimes (isutccnt isstdcnt leapcnt timecnt typecnt charcnt : Z) : Z := timecnt.",
+    "readDataBlock_reserve_idx": "Definition readDataBlock_reserve_idx (isutccnt isstdcnt leapcnt timecnt typecnt charcnt : Z) : Z := timecnt.",
+    "readDataBlock_nidx": "Definition readDataBlock_nidx (isutccnt isstdcnt leapcnt timecnt typecnt charcnt : Z) : Z := timecnt.",
+    "readDataBlock_reserve_types": "Definition readDataBlock_reserve_types (isutccnt isstdcnt leapcnt timecnt typecnt charcnt : Z) : Z := typecnt.",
+    "readDataBlock_ntypes": "Definition readDataBlock_ntypes (isutccnt isstdcnt leapcnt timecnt typecnt charcnt : Z) : Z := typecnt.",
+    "readDataBlock_nadd": "Definition readDataBlock_nadd (isutccnt isstdcnt leapcnt timecnt typecnt charcnt : Z) : Z := timecnt.",
+    "readDataBlock_nchars": "Definition readDataBlock_nchars (isutccnt isstdcnt leapcnt timecnt typecnt charcnt : Z) : Z := charcnt.",
+    "readTimeZoneFile_magic": "Definition readTimeZoneFile_magic : list Z := [84; 90; 105; 102].\nDefinition readTimeZoneFile_head_len : Z := 4.",
+    "readTimeZoneFile_version_len": "Definition readTimeZoneFile_version_len : Z := 1.\nDefinition readTimeZoneFile_reserved_len : Z := 15.",
+    "readTimeZoneFile_v2": "Definition readTimeZoneFile_v2 : list Z := [50].",
+    "readTimeZoneFile_skip": """Definition readTimeZoneFile_skip (isgmtcnt isstdcnt leapcnt timecnt typecnt charcnt : Z) : Z :=
+  4 * timecnt + timecnt + 6 * typecnt + charcnt + 8 * leapcnt + isstdcnt + isgmtcnt.
+Definition readTimeZoneFile_skip_fits (isgmtcnt isstdcnt leapcnt timecnt typecnt charcnt : Z) : bool := fits_int (6 * typecnt) && fits_int (8 * leapcnt).""",
+    "readTimeZoneFile_magic2": "Definition readTimeZoneFile_magic2 : list Z := [84; 90; 105; 102].\nDefinition readTimeZoneFile_head2_len : Z := 4.\nDefinition readTimeZoneFile_skip2 : Z := 16.\nDefinition readTimeZoneFile_v2_block_v1 : bool := false.",
+    "readTimeZoneFile_rewind": "Definition readTimeZoneFile_rewind : Z := (-24).\nDefinition readTimeZoneFile_v1_block_v1 : bool := true.",
+}
+
+TS = "(trans tb)"
+NT = "(length (trans tb))"
+
+
+class TzSym:
+    def __init__(self, relfile):
+        self.relfile = relfile
+        self.n = 0
+        self.ctor_fields = None
+        self.cmp_cache = {}
+
+    def fresh(self):
+        self.n += 1
+        return "v%d" % self.n
+
+    # ---- class facts read from the AST
+    def transition_ctor(self):
+        """field -> position of the constructor parameter that initialises it, for Transition(t, l, idx)"""
+        if self.ctor_fields is None:
+            res = None
+            for d in cxxast.dump(self.relfile, "muduo::TimeZone::Data::Transition"):
+                for n in cxxast.walk(d):
+                    if n.get("kind") == "CXXConstructorDecl":
+                        ps = [p for p in kids(n) if p.get("kind") == "ParmVarDecl"]
+                        inits = [c for c in kids(n) if c.get("kind") == "CXXCtorInitializer"]
+                        if len(ps) == 3 and len(inits) == 3:
+                            m = {}
+                            for i in inits:
+                                fld = (i.get("anyInit") or {}).get("name")
+                                ref = cxxast.strip(kids(i)[0]).get("referencedDecl", {}).get("name")
+                                pos = [k for k, p in enumerate(ps) if p.get("name") == ref]
+                                if fld is None or len(pos) != 1:
+                                    raise Untranslatable("Transition constructor initialiser")
+                                m[fld] = pos[0]
+                            res = m
+            if res is None or set(res) != {"utctime", "localtime", "localtimeIdx"}:
+                raise Untranslatable("Transition(int64_t, int64_t, int) not found")
+            self.ctor_fields = res
+        return self.ctor_fields
+
+    def comparator_field(self, cname):
+        """the field F of `return lhs.F < rhs.F;` in struct <cname>::operator()"""
+        if cname not in self.cmp_cache:
+            got = None
+            for d in cxxast.dump(self.relfile, "muduo::TimeZone::Data::" + cname):
+                for n in cxxast.walk(d):
+                    if n.get("kind") == "CXXMethodDecl" and n.get("name") == "operator()":
+                        ps = [p.get("name") for p in kids(n) if p.get("kind") == "ParmVarDecl"]
+                        st = kids(cxxast.body(n))
+                        if len(st) != 1 or st[0].get("kind") != "ReturnStmt" or len(ps) != 2:
+                            raise Untranslatable("comparator body")
+                        e = cxxast.strip(kids(st[0])[0])
+                        if e.get("kind") != "BinaryOperator" or e.get("opcode") != "<":
+                            raise Untranslatable("comparator is not a < comparison")
+                        l, r = [cxxast.strip(x) for x in kids(e)]
+                        ln = cxxast.strip(kids(l)[0]).get("referencedDecl", {}).get("name")
+                        rn = cxxast.strip(kids(r)[0]).get("referencedDecl", {}).get("name")
+                        if l.get("kind") != "MemberExpr" or r.get("kind") != "MemberExpr" or l.get("name") != r.get("name") \
+                           or (ln, rn) != (ps[0], ps[1]):
+                            raise Untranslatable("comparator compares different things")
+                        got = l.get("name")
+            if got not in ("utctime", "localtime"):
+                raise Untranslatable("comparator %s: field %s" % (cname, got))
+            self.cmp_cache[cname] = got
+        return self.cmp_cache[cname]
+
+    # ---- values
+    def el_field(self, v, fld):
+        if v[0] == "El":
+            e = "(nth %s %s tr0)" % (v[1], TS)
+            if fld == "utctime":
+                return ("Z", "(tutc %s)" % e)
+            if fld == "localtime":
+                return ("Z", "(tloc tb %s)" % e)
+            if fld == "localtimeIdx":
+                return ("N", "(tidx %s)" % e)
+        if v[0] == "Sentry" and fld in v[1]:
+            return v[1][fld]
+        if v[0] in ("LtRec",) and fld == "utcOffset":
+            return ("Z", "(off_of tb %s)" % v[1])
+        if v[0] == "Lt" and v[1] is not None and fld == "utcOffset":
+            return ("Z", "(off_of tb %s)" % v[1])
+        raise Untranslatable("field %s of %s" % (fld, v[0]))
+
+    def ev(self, n, env):
+        k = n.get("kind")
+        ks = kids(n)
+        if k in ("ParenExpr", "ExprWithCleanups", "MaterializeTemporaryExpr", "CXXBindTemporaryExpr", "ConstantExpr"):
+            return self.ev(ks[0], env)
+        if k in ("ImplicitCastExpr", "CStyleCastExpr", "CXXStaticCastExpr", "CXXFunctionalCastExpr"):
+            if n.get("castKind") == "NullToPointer":
+                return ("Lt", None)
+            v = self.ev(ks[0], env)
+            if n.get("castKind") == "IntegralCast" and v[0] == "Z" and "size_type" in n.get("type", {}).get("qualType", ""):
+                raise Untranslatable("integer used as an index")
+            return v
+        if k == "GNUNullExpr":
+            return ("Lt", None)
+        if k == "IntegerLiteral":
+            return ("Z", "(%d)" % int(n["value"]) if int(n["value"]) < 0 else str(int(n["value"])))
+        if k == "DeclRefExpr":
+            nm = n.get("referencedDecl", {}).get("name")
+            if nm in env:
+                return env[nm]
+            raise Untranslatable("unknown name %s" % nm)
+        if k == "CXXThisExpr":
+            return ("This",)
+        if k == "MemberExpr":
+            b = self.ev(ks[0], env)
+            if b[0] == "This" and n.get("name") in ("transitions", "localtimes"):
+                return ("Vec", n["name"])
+            return self.el_field(b, n.get("name"))
+        if k == "CXXMemberCallExpr":
+            me = ks[0]
+            obj = self.ev(kids(me)[0], env)
+            m = me.get("name")
+            if obj[0] == "Vec" and len(ks) == 1:
+                vec = obj[1]
+                if vec == "transitions":
+                    if m == "empty":
+                        return ("B", "(%s =? 0)%%nat" % NT)
+                    if m == "front":
+                        return ("El", "0%nat")
+                    if m == "back":
+                        return ("El", "(%s - 1)%%nat" % NT)
+                    if m == "begin":
+                        return ("It", "0%nat")
+                    if m == "end":
+                        return ("It", NT)
+                if vec == "localtimes":
+                    if m == "front":
+                        return ("LtRec", "0%nat")
+            raise Untranslatable("member call %s" % m)
+        if k == "UnaryOperator":
+            op = n.get("opcode")
+            v = self.ev(ks[0], env)
+            if op == "&" and v[0] == "LtRec":
+                return ("Lt", v[1])
+            if op == "!" and v[0] == "B":
+                return ("B", "(negb %s)" % v[1])
+            raise Untranslatable("unary %s on %s" % (op, v[0]))
+        if k == "BinaryOperator":
+            op = n.get("opcode")
+            a, b = self.ev(ks[0], env), self.ev(ks[1], env)
+            if op in ("||", "&&") and a[0] == b[0] == "B":
+                return ("B", "(%s %s %s)" % (a[1], op, b[1]))
+            if a[0] == b[0] == "Z":
+                if op in ("+", "-"):
+                    return ("Z", "(%s %s %s)" % (a[1], op, b[1]))
+                cmpo = {"<": "<?", "<=": "<=?", ">": ">?", ">=": ">=?", "==": "=?"}
+                if op in cmpo:
+                    return ("B", "(%s %s %s)" % (a[1], cmpo[op], b[1]))
+            raise Untranslatable("binary %s on %s, %s" % (op, a[0], b[0]))
+        if k == "CXXOperatorCallExpr":
+            callee = cxxast.strip(ks[0]).get("referencedDecl", {}).get("name")
+            args = [self.ev(x, env) for x in ks[1:]]
+            if callee in ("operator!=", "operator==") and len(args) == 2 and args[0][0] == args[1][0] == "It":
+                t = "(%s =? %s)%%nat" % (args[0][1], args[1][1])
+                return ("B", t if callee == "operator==" else "(negb %s)" % t)
+            if callee == "operator-" and len(args) == 2 and args[0][0] == "It" and args[1][0] == "Z":
+                return ("It", "(%s - Z.to_nat %s)%%nat" % (args[0][1], args[1][1]))
+            if callee in ("operator*", "operator->") and len(args) == 1 and args[0][0] == "It":
+                return ("El", args[0][1])
+            if callee == "operator[]" and len(args) == 2 and args[0] == ("Vec", "localtimes") and args[1][0] == "N":
+                return ("LtRec", args[1][1])
+            raise Untranslatable("operator call %s on %s" % (callee, [a[0] for a in args]))
+        if k in ("CXXConstructExpr", "CXXTemporaryObjectExpr"):
+            qt = n.get("type", {}).get("qualType", "")
+            if qt.endswith("Transition") and len(ks) == 3:
+                m = self.transition_ctor()
+                args = [self.ev(x, env) for x in ks]
+                return ("Sentry", {f: args[pos] for f, pos in m.items()})
+            if len(ks) == 1:
+                return self.ev(ks[0], env)       # copy of an element / iterator
+            raise Untranslatable("construction of %s" % qt)
+        if k == "CallExpr":
+            callee = cxxast.strip(ks[0]).get("referencedDecl", {}).get("name")
+            if callee == "fromUtcTime" and len(ks) == 2:
+                a = self.ev(ks[1], env)
+                if a[0] == "DT":
+                    return ("Z", "(fromUtc %s)" % a[1])
+            if callee == "upper_bound" and len(ks) == 5:
+                b, e, key = self.ev(ks[1], env), self.ev(ks[2], env), self.ev(ks[3], env)
+                cq = ks[4].get("type", {}).get("qualType", "")
+                cname = cq.split("::")[-1]
+                if b != ("It", "0%nat") or e != ("It", NT):
+                    raise Untranslatable("upper_bound over a sub-range")
+                fld = self.comparator_field(cname)
+                keyv = self.el_field(key, fld)
+                col = "(map tutc %s)" % TS if fld == "utctime" else "(map (tloc tb) %s)" % TS
+                return ("It", "(upper_bound %s %s)" % (keyv[1], col))
+            raise Untranslatable("call to %s" % callee)
+        raise Untranslatable("expression kind %s" % k)
+
+    # ---- statements (continuation-passing: `if` duplicates the rest)
+    def is_assert(self, s):
+        return any(x.get("kind") == "DeclRefExpr" and x.get("referencedDecl", {}).get("name") == "__assert_fail" for x in cxxast.walk(s))
+
+    def bind(self, v, lets):
+        """name Z / iterator / index values once"""
+        if v[0] in ("Z", "It", "N") and not re.match(r"^\(?-?\w+%?\w*\)?$", v[1]):
+            nm = self.fresh()
+            lets.append("let %s := %s in" % (nm, v[1]))
+            return (v[0], nm)
+        if v[0] in ("El", "LtRec", "Lt") and v[1] is not None and not re.match(r"^\w+(%nat)?$", v[1]):
+            nm = self.fresh()
+            lets.append("let %s := %s in" % (nm, v[1]))
+            return (v[0], nm)
+        return v
+
+    def run(self, stmts, env, ind):
+        pad = "  " * ind
+        if not stmts:
+            raise Untranslatable("control reaches the end without return")
+        s, rest = stmts[0], stmts[1:]
+        k = s.get("kind")
+        if k == "CompoundStmt":
+            return self.run(kids(s) + rest, env, ind)
+        if k == "NullStmt" or (k in ("ExprWithCleanups", "ParenExpr", "ConditionalOperator") and self.is_assert(s)):
+            return self.run(rest, env, ind)
+        if k in ("ExprWithCleanups", "ParenExpr") and len(kids(s)) == 1:
+            return self.run([kids(s)[0]] + rest, env, ind)
+        if k == "DeclStmt":
+            lets = []
+            env = dict(env)
+            for v in kids(s):
+                if v.get("kind") != "VarDecl":
+                    raise Untranslatable("declaration of %s" % v.get("kind"))
+                init = kids(v)
+                if not init:
+                    raise Untranslatable("uninitialised local %s" % v.get("name"))
+                env[v["name"]] = self.bind(self.ev(init[0], env), lets)
+            return "".join(pad + l + "\n" for l in lets) + self.run(rest, env, ind)
+        if k == "BinaryOperator" and s.get("opcode") == "=":
+            l, r = kids(s)
+            l = cxxast.strip(l)
+            if l.get("kind") != "DeclRefExpr" or l["referencedDecl"]["name"] not in env:
+                raise Untranslatable("assignment target")
+            lets = []
+            env = dict(env)
+            env[l["referencedDecl"]["name"]] = self.bind(self.ev(r, env), lets)
+            return "".join(pad + x + "\n" for x in lets) + self.run(rest, env, ind)
+        if k == "CXXOperatorCallExpr":
+            ks = kids(s)
+            callee = cxxast.strip(ks[0]).get("referencedDecl", {}).get("name")
+            tgt = cxxast.strip(ks[1])
+            if callee == "operator=" and tgt.get("kind") == "DeclRefExpr" and tgt["referencedDecl"]["name"] in env and len(ks) == 3:
+                lets = []
+                env = dict(env)
+                env[tgt["referencedDecl"]["name"]] = self.bind(self.ev(ks[2], env), lets)
+                return "".join(pad + x + "\n" for x in lets) + self.run(rest, env, ind)
+            if callee in ("operator--", "operator++") and tgt.get("kind") == "DeclRefExpr" and env.get(tgt["referencedDecl"]["name"], ("",))[0] == "It":
+                nm = tgt["referencedDecl"]["name"]
+                lets = []
+                env = dict(env)
+                env[nm] = self.bind(("It", "(%s %s 1)%%nat" % (env[nm][1], "-" if callee == "operator--" else "+")), lets)
+                return "".join(pad + x + "\n" for x in lets) + self.run(rest, env, ind)
+            raise Untranslatable("operator statement %s" % callee)
+        if k == "IfStmt":
+            ks = kids(s)
+            c = self.ev(ks[0], env)
+            if c[0] == "Lt":
+                raise Untranslatable("pointer used as a condition")
+            if c[0] != "B":
+                raise Untranslatable("condition of kind %s" % c[0])
+            th = [ks[1]]
+            el = [ks[2]] if len(ks) > 2 else []
+            return (pad + "if %s then\n" % c[1] + self.run(th + rest, env, ind + 1) +
+                    pad + "else\n" + self.run(el + rest, env, ind + 1))
+        if k == "ReturnStmt":
+            v = self.ev(kids(s)[0], env)
+            if v[0] != "Lt" or v[1] is None:
+                raise Untranslatable("returned value is not a pointer into localtimes")
+            return pad + v[1] + "\n"
+        raise Untranslatable("statement kind %s" % k)
+
+
+def main_tz():
+    rel = "muduo/base/TimeZone.cc"
+    out = ["(* GENERATED by lib/gen_C20.py (main_tz) from the current muduo sources (VERIF_REPO) -- do not edit *)", TZ_PRELUDE]
+    fallbacks = []
+
+    def methods():
+        res = []
+        for d in cxxast.dump(rel, "muduo::TimeZone::Data::findLocalTime"):
+            for n in cxxast.walk(d):
+                if n.get("kind") == "CXXMethodDecl" and n.get("name") == "findLocalTime" and \
+                   any(c.get("kind") == "CompoundStmt" for c in kids(n)):
+                    res.append(n)
+        return res
+
+    def emit(name, thunk):
+        try:
+            txt, src = thunk()
+            src = " ".join(src.split()).replace("*)", "* )").replace("(*", "( *")
+            out.append("(* %s: %s *)\n%s\n" % (rel, src[:1500], txt))
+        except Exception as e:  # noqa
+            fallbacks.append("%s: %s" % (name, e))
+            out.append("(* FALLBACK %s: %s *)\n%s\n" % (name, str(e).replace("*)", ""), TZ_TWINS[name]))
+
+    def utc():
+        ms = [m for m in methods() if len([p for p in kids(m) if p.get("kind") == "ParmVarDecl"]) == 1]
+        if len(ms) != 1:
+            raise Untranslatable("%d one-parameter overloads" % len(ms))
+        m = ms[0]
+        p = [p for p in kids(m) if p.get("kind") == "ParmVarDecl"][0]
+        sym = TzSym(rel)
+        body = sym.run(kids(cxxast.body(m)), {p["name"]: ("Z", "utcTime")}, 1)
+        return "Definition findLocalTime_utc (tb : tzdata) (utcTime : Z) : nat :=\n" + body.rstrip("\n") + ".", \
+               re.sub(r"//[^\n]*", "", cxxast.src_text(m, rel))
+
+    def local():
+        ms = [m for m in methods() if len([p for p in kids(m) if p.get("kind") == "ParmVarDecl"]) == 2]
+        if len(ms) != 1:
+            raise Untranslatable("%d two-parameter overloads" % len(ms))
+        m = ms[0]
+        ps = [p for p in kids(m) if p.get("kind") == "ParmVarDecl"]
+        if "DateTime" not in ps[0].get("type", {}).get("qualType", "") or ps[1].get("type", {}).get("qualType") != "bool":
+            raise Untranslatable("parameter types")
+        sym = TzSym(rel)
+        body = sym.run(kids(cxxast.body(m)), {ps[0]["name"]: ("DT", "lt"), ps[1]["name"]: ("B", "postTransition")}, 1)
+        return "Definition findLocalTime_local (tb : tzdata) (lt : DateTime) (postTransition : bool) : nat :=\n" + body.rstrip("\n") + ".", \
+               re.sub(r"//[^\n]*", "", cxxast.src_text(m, rel))
+
+    def addtr():
+        fn = None
+        for d in cxxast.dump(rel, "muduo::TimeZone::Data::addTransition"):
+            for n in cxxast.walk(d):
+                if n.get("kind") == "CXXMethodDecl" and n.get("name") == "addTransition" and any(c.get("kind") == "CompoundStmt" for c in kids(n)):
+                    fn = n
+        if fn is None:
+            raise Untranslatable("addTransition not found")
+        ps = [p["name"] for p in kids(fn) if p.get("kind") == "ParmVarDecl"]
+        st = kids(cxxast.body(fn))
+        if len(st) != 2 or len(ps) != 2:
+            raise Untranslatable("shape of addTransition")
+        # LocalTime lt = localtimes.at(localtimeIdx);
+        v = kids(st[0])[0]
+        at = [c for c in cxxast.walk(v) if c.get("kind") == "MemberExpr" and c.get("name") == "at"]
+        ref = [c.get("referencedDecl", {}).get("name") for c in cxxast.walk(v) if c.get("kind") == "DeclRefExpr"]
+        if v.get("kind") != "VarDecl" or not at or ps[1] not in ref:
+            raise Untranslatable("first statement is not `LocalTime lt = localtimes.at(idx)`")
+        sym = TzSym(rel)
+        env = {ps[0]: ("Z", "utcTime"), ps[1]: ("N", "localtimeIdx"), v["name"]: ("LtRec", "localtimeIdx")}
+        # transitions.push_back(Transition(utcTime, utcTime + lt.utcOffset, localtimeIdx));
+        cons = [c for c in cxxast.walk(st[1]) if c.get("kind") in ("CXXConstructExpr", "CXXTemporaryObjectExpr", "CXXFunctionalCastExpr")
+                and c.get("type", {}).get("qualType", "").endswith("Transition") and len(kids(c)) == 3]
+        pb = [c for c in cxxast.walk(st[1]) if c.get("kind") == "MemberExpr" and c.get("name") == "push_back"]
+        if not cons or not pb:
+            raise Untranslatable("second statement is not transitions.push_back(Transition(a, b, c))")
+        val = sym.ev(cons[0], env)
+        if val[0] != "Sentry" or val[1]["utctime"] != ("Z", "utcTime") or val[1]["localtimeIdx"] != ("N", "localtimeIdx"):
+            raise Untranslatable("stored utctime / index are not the arguments")
+        return "Definition addTransition_localtime (tb : tzdata) (utcTime : Z) (localtimeIdx : nat) : Z :=\n  %s." % val[1]["localtime"][1], \
+               cxxast.src_text(fn, rel)
+
+
+    # ---- detail::readDataBlock / readTimeZoneFile: counts, rejection tests, loop bounds, constants
+    def member_calls(n, name):
+        return [c for c in cxxast.walk(n) if c.get("kind") == "CXXMemberCallExpr" and kids(c) and kids(c)[0].get("kind") == "MemberExpr"
+                and kids(c)[0].get("name") == name]
+
+    def count_decls(stmts):
+        """names of the consecutive `const int32_t X = f.readInt32();` declarations, and the index after them"""
+        names, i = [], 0
+        while i < len(stmts) and not names and not (stmts[i].get("kind") == "DeclStmt" and member_calls(stmts[i], "readInt32")
+                                                    and len(kids(stmts[i])) == 1 and kids(stmts[i])[0].get("kind") == "VarDecl"
+                                                    and cxxast.strip(kids(kids(stmts[i])[0])[0]).get("kind") == "CXXMemberCallExpr"):
+            i += 1
+        first = i
+        while i < len(stmts) and stmts[i].get("kind") == "DeclStmt" and len(kids(stmts[i])) == 1 and kids(stmts[i])[0].get("kind") == "VarDecl" \
+                and kids(kids(stmts[i])[0]) and cxxast.strip(kids(kids(stmts[i])[0])[0]).get("kind") == "CXXMemberCallExpr" \
+                and kids(cxxast.strip(kids(kids(stmts[i])[0])[0]))[0].get("name") == "readInt32":
+            names.append(kids(stmts[i])[0]["name"])
+            i += 1
+        return names, first, i
+
+    class CountExpr:
+        """integer expressions over the count variables; records every multiplication carried out in int"""
+        def __init__(self, names):
+            self.names = names
+            self.int_mults = []
+
+        def tr(self, n):
+            n2 = n
+            k = n2.get("kind")
+            ks = kids(n2)
+            if k in ("ImplicitCastExpr", "ParenExpr", "CStyleCastExpr", "CXXStaticCastExpr"):
+                return self.tr(ks[0])
+            if k == "IntegerLiteral":
+                v = int(n2["value"])
+                return "(%d)" % v if v < 0 else str(v)
+            if k == "UnaryExprOrTypeTraitExpr":
+                return str(cxxast.const_eval(n2))
+            if k == "DeclRefExpr":
+                nm = n2.get("referencedDecl", {}).get("name")
+                if nm in self.names:
+                    return ident(nm)
+                raise Untranslatable("name %s in a count expression" % nm)
+            if k == "UnaryOperator" and n2.get("opcode") == "-":
+                return "(- %s)" % self.tr(ks[0])
+            if k == "BinaryOperator" and n2.get("opcode") in ("+", "-", "*"):
+                t = "(%s %s %s)" % (self.tr(ks[0]), n2["opcode"], self.tr(ks[1]))
+                if n2["opcode"] == "*" and base_type(n2.get("type", {}).get("qualType", "")) in INT32 + ("int32_t",):
+                    self.int_mults.append(t)
+                return t
+            raise Untranslatable("count expression kind %s" % k)
+
+        def cond(self, n):
+            n2 = cxxast.strip(n)
+            if n2.get("kind") == "BinaryOperator":
+                op = n2["opcode"]
+                a, b = kids(n2)
+                if op in ("&&", "||"):
+                    return "(%s %s %s)" % (self.cond(a), op, self.cond(b))
+                m = {"!=": "(negb (%s =? %s))", "==": "(%s =? %s)", "<": "(%s <? %s)", "<=": "(%s <=? %s)", ">": "(%s >? %s)", ">=": "(%s >=? %s)"}
+                if op in m:
+                    return m[op] % (self.tr(a), self.tr(b))
+            raise Untranslatable("count condition")
+
+    def is_return_false(st):
+        st = kids(st)[0] if st.get("kind") == "CompoundStmt" and len(kids(st)) == 1 else st
+        return st.get("kind") == "ReturnStmt" and kids(st) and cxxast.strip(kids(st)[0]).get("kind") == "CXXBoolLiteralExpr" \
+            and not cxxast.strip(kids(st)[0]).get("value")
+
+    state = {}
+
+    def datablock():
+        if "db" in state:
+            return state["db"]
+        fn = cxxast.function_decl(rel, "muduo::detail::readDataBlock")
+        ps = [p for p in kids(fn) if p.get("kind") == "ParmVarDecl"]
+        if len(ps) != 3 or ps[2].get("type", {}).get("qualType") != "bool":
+            raise Untranslatable("parameters of readDataBlock")
+        v1name = ps[2]["name"]
+        st = kids(cxxast.body(fn))
+        names, first, after = count_decls(st)
+        if len(names) != 6:
+            raise Untranslatable("%d count declarations" % len(names))
+        ce = CountExpr(names)
+        rejects, order = [], []
+        for x in st[after:]:
+            k = x.get("kind")
+            if k == "IfStmt" and len(kids(x)) == 2 and is_return_false(kids(x)[1]):
+                if order:
+                    raise Untranslatable("a rejection test after the first read")
+                rejects.append(ce.cond(kids(x)[0]))
+            elif k == "CXXMemberCallExpr" and kids(x)[0].get("name") == "reserve":
+                order.append(("reserve", ce.tr(kids(x)[1])))
+            elif k == "ForStmt":
+                fk = [c for c in x.get("inner", [])]
+                cond = fk[2] if len(fk) >= 5 and isinstance(fk[2], dict) else None
+                c2 = cxxast.strip(cond) if cond else {}
+                if c2.get("kind") != "BinaryOperator" or c2.get("opcode") != "<":
+                    raise Untranslatable("loop condition")
+                init = cxxast.strip(kids(kids(fk[0])[0])[0]) if isinstance(fk[0], dict) and fk[0].get("kind") == "DeclStmt" else {}
+                if init.get("kind") != "IntegerLiteral" or int(init["value"]) != 0:
+                    raise Untranslatable("loop does not start at 0")
+                bound = ce.tr(kids(c2)[1])
+                body = fk[4]
+                r32, r64, r8 = len(member_calls(body, "readInt32")), len(member_calls(body, "readInt64")), len(member_calls(body, "readUInt8"))
+                if member_calls(body, "addTransition"):
+                    kind = "add"
+                elif member_calls(body, "addLocalTime") and (r32, r64, r8) == (1, 0, 2):
+                    kind = "types"
+                elif (r32, r64, r8) == (1, 1, 0):
+                    ifs = [c for c in kids(body) if c.get("kind") == "IfStmt"]
+                    if len(ifs) != 1 or cxxast.strip(kids(ifs[0])[0]).get("referencedDecl", {}).get("name") != v1name \
+                       or not member_calls(kids(ifs[0])[1], "readInt32") or not member_calls(kids(ifs[0])[2], "readInt64"):
+                        raise Untranslatable("time loop is not `if (v1) readInt32 else readInt64`")
+                    kind = "times"
+                elif (r32, r64, r8) == (0, 0, 1):
+                    kind = "idx"
+                else:
+                    raise Untranslatable("unrecognised loop body")
+                order.append((kind, bound))
+            elif k == "BinaryOperator" or (k in ("ExprWithCleanups",) and member_calls(x, "readBytes")):
+                rb = member_calls(x, "readBytes")
+                if len(rb) == 1:
+                    order.append(("chars", ce.tr(kids(rb[0])[1])))
+        kinds = [k for (k, b) in order]
+        want = ["reserve", "times", "reserve", "idx", "reserve", "types", "add", "chars"]
+        if kinds != want:
+            raise Untranslatable("statement order %s, expected %s" % (kinds, want))
+        # time_size = v1 ? sizeof(int32_t) : sizeof(int64_t)
+        ts = None
+        for x in st[:first]:
+            for v in kids(x):
+                if v.get("kind") == "VarDecl":
+                    c = cxxast.strip(kids(v)[0])
+                    if c.get("kind") == "ConditionalOperator" and cxxast.strip(kids(c)[0]).get("referencedDecl", {}).get("name") == v1name:
+                        ts = (cxxast.const_eval(kids(c)[1]), cxxast.const_eval(kids(c)[2]))
+        if ts != (4, 8):
+            raise Untranslatable("time_size is not v1 ? 4 : 8")
+        state["db"] = dict(names=names, rejects=rejects, order=order, src=cxxast.src_text(fn, rel))
+        return state["db"]
+
+    def db_def(gname, term, ty="Z"):
+        d = datablock()
+        return "Definition %s (%s : Z) : %s := %s." % (gname, " ".join(ident(x) for x in d["names"]), ty, term)
+
+    emit("readDataBlock_reject", lambda: (db_def("readDataBlock_reject", " || ".join(datablock()["rejects"]) or "false", "bool"),
+                                          "if (...) return false; tests of readDataBlock, counts read in the order " + " ".join(datablock()["names"])))
+    for i, (gname, what) in enumerate([("readDataBlock_reserve_times", "trans.reserve"), ("readDataBlock_ntimes", "loop reading the transition times"),
+                                       ("readDataBlock_reserve_idx", "localtimes.reserve"), ("readDataBlock_nidx", "loop reading the type indices"),
+                                       ("readDataBlock_reserve_types", "data->localtimes.reserve"), ("readDataBlock_ntypes", "loop reading the ttinfo entries"),
+                                       ("readDataBlock_nadd", "loop calling addTransition"), ("readDataBlock_nchars", "readBytes of the abbreviations")]):
+        emit(gname, lambda i=i, gname=gname, what=what: (db_def(gname, datablock()["order"][i][1]), "readDataBlock: " + what))
+
+    def tzfile():
+        if "tf" in state:
+            return state["tf"]
+        fn = cxxast.function_decl(rel, "muduo::detail::readTimeZoneFile")
+        trys = [n for n in cxxast.walk(cxxast.body(fn)) if n.get("kind") == "CXXTryStmt"]
+        if len(trys) != 1:
+            raise Untranslatable("try blocks")
+        st = kids(kids(trys[0])[0])
+        names, first, after = count_decls(st)
+        if len(names) != 6:
+            raise Untranslatable("%d count declarations" % len(names))
+
+        def lit(n):
+            ls = [c for c in cxxast.walk(n) if c.get("kind") == "StringLiteral"]
+            if len(ls) != 1:
+                raise Untranslatable("string literal")
+            return [ord(ch) for ch in json_string(ls[0]["value"])]
+
+        def strcmp(n, op):
+            c = cxxast.strip(n)
+            if c.get("kind") == "CXXOperatorCallExpr" and cxxast.strip(kids(c)[0]).get("referencedDecl", {}).get("name") == op:
+                return cxxast.strip(kids(c)[1]).get("referencedDecl", {}).get("name"), lit(kids(c)[2])
+            raise Untranslatable("string comparison")
+
+        def throws(n):
+            return any(c.get("kind") == "CXXThrowExpr" for c in cxxast.walk(n))
+
+        def rb_len(n):
+            rb = member_calls(n, "readBytes")
+            if len(rb) != 1:
+                raise Untranslatable("readBytes call")
+            return cxxast.const_eval(kids(rb[0])[1])
+
+        def skip_arg(n):
+            sk = member_calls(n, "skip")
+            if len(sk) != 1:
+                raise Untranslatable("skip call")
+            return kids(sk[0])[1]
+
+        pre = st[:first]
+        # head = readBytes(4); if (head != "TZif") throw; version = readBytes(1); readBytes(15);
+        if len(pre) != 4 or pre[0].get("kind") != "DeclStmt" or pre[1].get("kind") != "IfStmt" or pre[2].get("kind") != "DeclStmt":
+            raise Untranslatable("statements before the counts")
+        headvar, vervar = kids(pre[0])[0]["name"], kids(pre[2])[0]["name"]
+        hv, magic = strcmp(kids(pre[1])[0], "operator!=")
+        if hv != headvar or not throws(kids(pre[1])[1]):
+            raise Untranslatable("magic test")
+        f = dict(head_len=rb_len(pre[0]), magic=magic, version_len=rb_len(pre[2]), reserved_len=rb_len(pre[3]))
+        post = st[after:]
+        if len(post) != 1 or post[0].get("kind") != "IfStmt" or len(kids(post[0])) != 3:
+            raise Untranslatable("statements after the counts")
+        vv, f["v2"] = strcmp(kids(post[0])[0], "operator==")
+        if vv != vervar:
+            raise Untranslatable("version test")
+        th, el = kids(kids(post[0])[1]), kids(kids(post[0])[2])
+        # then: size_t skip = E; f.skip(skip); head = readBytes(4); if (head != "TZif") throw; f.skip(16); return readDataBlock(f, data, false);
+        if len(th) != 6 or th[0].get("kind") != "DeclStmt":
+            raise Untranslatable("version-2 branch")
+        skv = kids(th[0])[0]
+        ce = CountExpr(names)
+        f["skip"] = ce.tr(kids(skv)[0])
+        f["skip_mults"] = list(ce.int_mults)
+        if cxxast.strip(skip_arg(th[1])).get("referencedDecl", {}).get("name") != skv["name"]:
+            raise Untranslatable("skip argument")
+        f["head2_len"] = rb_len(th[2])
+        hv2, f["magic2"] = strcmp(kids(th[3])[0], "operator!=")
+        if hv2 != headvar or not throws(kids(th[3])[1]):
+            raise Untranslatable("second magic test")
+        f["skip2"] = cxxast.const_eval(skip_arg(th[4]))
+
+        def rdb_flag(n):
+            cs = [c for c in cxxast.walk(n) if c.get("kind") == "CallExpr" and cxxast.strip(kids(c)[0]).get("referencedDecl", {}).get("name") == "readDataBlock"]
+            if n.get("kind") != "ReturnStmt" or len(cs) != 1:
+                raise Untranslatable("return readDataBlock(...)")
+            return bool(cxxast.strip(kids(cs[0])[3]).get("value"))
+        f["v2_flag"] = rdb_flag(th[5])
+        if len(el) != 2:
+            raise Untranslatable("version-1 branch")
+        f["rewind"] = cxxast.const_eval(skip_arg(el[0]))
+        f["v1_flag"] = rdb_flag(el[1])
+        f["names"] = names
+        state["tf"] = f
+        return f
+
+    def zl(l):
+        return "[" + "; ".join(str(x) for x in l) + "]"
+    emit("readTimeZoneFile_magic", lambda: ("Definition readTimeZoneFile_magic : list Z := %s.\nDefinition readTimeZoneFile_head_len : Z := %d." % (zl(tzfile()["magic"]), tzfile()["head_len"]),
+                                            'head = f.readBytes(%d); if (head != "%s") throw' % (tzfile()["head_len"], "".join(map(chr, tzfile()["magic"])))))
+    emit("readTimeZoneFile_version_len", lambda: ("Definition readTimeZoneFile_version_len : Z := %d.\nDefinition readTimeZoneFile_reserved_len : Z := %d." % (tzfile()["version_len"], tzfile()["reserved_len"]),
+                                                  "version = f.readBytes(%d); f.readBytes(%d)" % (tzfile()["version_len"], tzfile()["reserved_len"])))
+    emit("readTimeZoneFile_v2", lambda: ("Definition readTimeZoneFile_v2 : list Z := %s." % zl(tzfile()["v2"]), 'if (version == "%s")' % "".join(map(chr, tzfile()["v2"]))))
+    emit("readTimeZoneFile_skip", lambda: ("Definition readTimeZoneFile_skip (%s : Z) : Z := %s.\nDefinition readTimeZoneFile_skip_fits (%s : Z) : bool := %s." % (
+        " ".join(ident(x) for x in tzfile()["names"]), tzfile()["skip"], " ".join(ident(x) for x in tzfile()["names"]),
+        " && ".join("fits_int %s" % m for m in tzfile()["skip_mults"]) or "true"), "size_t skip = ... (multiplications carried out in int: %s)" % ", ".join(tzfile()["skip_mults"])))
+    emit("readTimeZoneFile_magic2", lambda: ("Definition readTimeZoneFile_magic2 : list Z := %s.\nDefinition readTimeZoneFile_head2_len : Z := %d.\nDefinition readTimeZoneFile_skip2 : Z := %d.\nDefinition readTimeZoneFile_v2_block_v1 : bool := %s." % (
+        zl(tzfile()["magic2"]), tzfile()["head2_len"], tzfile()["skip2"], "true" if tzfile()["v2_flag"] else "false"), "version-2 branch: second header, f.skip, readDataBlock(f, data, flag)"))
+    emit("readTimeZoneFile_rewind", lambda: ("Definition readTimeZoneFile_rewind : Z := (%d).\nDefinition readTimeZoneFile_v1_block_v1 : bool := %s." % (
+        tzfile()["rewind"], "true" if tzfile()["v1_flag"] else "false"), "other versions: f.skip(rewind), readDataBlock(f, data, flag)"))
+
+    emit("findLocalTime_utc", utc)
+    emit("findLocalTime_local", local)
+    emit("addTransition_localtime", addtr)
+    txt = "\n".join(out) + "\n"
+    path = os.path.join(cxxast.ROOT, "coq/Gen_C20Tz.v")
+    old = open(path).read() if os.path.exists(path) else None
+    if old != txt:
+        open(path, "w").write(txt)
+    for f in fallbacks:
+        print("FALLBACK", f)
+    return 0
+
+
+# ==========================================================================================
+# fourth output: coq/Gen_C20Ts.v -- Timestamp text and arithmetic, Date::toIsoString:
+#   Timestamp.cc  toString: the two values handed to snprintf (as functions of microSecondsSinceEpoch_),
+#                 the format, the buffer size; toFormattedString: the seconds handed to gmtime_r, both
+#                 formats and argument lists (as functions of the struct tm fields), the buffer size
+#   Timestamp.h   secondsSinceEpoch, fromUnixTime(t, microseconds), timeDifference (the int64 difference
+#                 that is then divided as a double), addTime (how the int64 delta enters the result)
+#   Date.cc       toIsoString: format, arguments (fields of yearMonthDay()), buffer size
+# integer expressions go through the same translator as the calendar functions (C semantics, `_fits`).
+
+TS_PRELUDE = """From Coq Require Import ZArith Bool List.
+From Muduo Require Import Gen_C20.
+Import ListNotations.
+Local Open Scope Z_scope.
+Local Open Scope bool_scope.
+"""
+
+TS_TWINS = {
+    "Timestamp_toString": """Definition Timestamp_toString_args (microSecondsSinceEpoch_ : Z) : list Z :=
+  [Z.quot microSecondsSinceEpoch_ kMicroSecondsPerSecond; Z.rem microSecondsSinceEpoch_ kMicroSecondsPerSecond].
+Definition Timestamp_toString_args_fits (microSecondsSinceEpoch_ : Z) : bool := true.
+Definition Timestamp_toString_fmt : list Z := [37; 108; 100; 46; 37; 48; 54; 108; 100].
+Definition Timestamp_toString_bufsize : Z := 32.""",
+    "Timestamp_toFormattedString": """Definition Timestamp_toFormattedString_seconds (microSecondsSinceEpoch_ : Z) : Z := Z.quot microSecondsSinceEpoch_ kMicroSecondsPerSecond.
+Definition Timestamp_toFormattedString_seconds_fits (microSecondsSinceEpoch_ : Z) : bool := true.
+Definition Timestamp_toFormattedString_args_micro (microSecondsSinceEpoch_ tm_time_tm_year tm_time_tm_mon tm_time_tm_mday tm_time_tm_hour tm_time_tm_min tm_time_tm_sec : Z) : list Z :=
+  [tm_time_tm_year + 1900; tm_time_tm_mon + 1; tm_time_tm_mday; tm_time_tm_hour; tm_time_tm_min; tm_time_tm_sec; Z.rem microSecondsSinceEpoch_ kMicroSecondsPerSecond].
+Definition Timestamp_toFormattedString_args_micro_fits (microSecondsSinceEpoch_ tm_time_tm_year tm_time_tm_mon tm_time_tm_mday tm_time_tm_hour tm_time_tm_min tm_time_tm_sec : Z) : bool := true.
+Definition Timestamp_toFormattedString_fmt_micro : list Z := [37; 52; 100; 37; 48; 50; 100; 37; 48; 50; 100; 32; 37; 48; 50; 100; 58; 37; 48; 50; 100; 58; 37; 48; 50; 100; 46; 37; 48; 54; 100].
+Definition Timestamp_toFormattedString_args_plain (microSecondsSinceEpoch_ tm_time_tm_year tm_time_tm_mon tm_time_tm_mday tm_time_tm_hour tm_time_tm_min tm_time_tm_sec : Z) : list Z :=
+  [tm_time_tm_year + 1900; tm_time_tm_mon + 1; tm_time_tm_mday; tm_time_tm_hour; tm_time_tm_min; tm_time_tm_sec].
+Definition Timestamp_toFormattedString_args_plain_fits (microSecondsSinceEpoch_ tm_time_tm_year tm_time_tm_mon tm_time_tm_mday tm_time_tm_hour tm_time_tm_min tm_time_tm_sec : Z) : bool := true.
+Definition Timestamp_toFormattedString_fmt_plain : list Z := [37; 52; 100; 37; 48; 50; 100; 37; 48; 50; 100; 32; 37; 48; 50; 100; 58; 37; 48; 50; 100; 58; 37; 48; 50; 100].
+Definition Timestamp_toFormattedString_bufsize : Z := 64.""",
+    "Timestamp_secondsSinceEpoch": """Definition Timestamp_secondsSinceEpoch (microSecondsSinceEpoch_ : Z) := Z.quot microSecondsSinceEpoch_ kMicroSecondsPerSecond.
+Definition Timestamp_secondsSinceEpoch_fits (microSecondsSinceEpoch_ : Z) : bool := true.""",
+    "Timestamp_fromUnixTime": """Definition Timestamp_fromUnixTime (t microseconds : Z) := t * kMicroSecondsPerSecond + microseconds.
+Definition Timestamp_fromUnixTime_fits (t microseconds : Z) : bool := true.""",
+    "Timestamp_timeDifference_diff": """Definition Timestamp_timeDifference_diff (high low : Z) : Z := high - low.
+Definition Timestamp_timeDifference_divisor : Z := kMicroSecondsPerSecond.""",
+    "Timestamp_addTime": """Definition Timestamp_addTime (timestamp delta : Z) : Z := timestamp + delta.
+Definition Timestamp_addTime_factor : Z := kMicroSecondsPerSecond.""",
+    "Date_toIsoString": """Definition Date_toIsoString_args (ymd_year ymd_month ymd_day : Z) : list Z := [ymd_year; ymd_month; ymd_day].
+Definition Date_toIsoString_fmt : list Z := [37; 52; 100; 45; 37; 48; 50; 100; 45; 37; 48; 50; 100].
+Definition Date_toIsoString_bufsize : Z := 32.""",
+}
+
+
+def main_ts():
+    out = ["(* GENERATED by lib/gen_C20.py (main_ts) from the current muduo sources (VERIF_REPO) -- do not edit *)", TS_PRELUDE]
+    fallbacks = []
+    G = {"kMicroSecondsPerSecond": "kMicroSecondsPerSecond"}
+
+    def emit(name, thunk):
+        try:
+            txt, src = thunk()
+            src = " ".join(src.split()).replace("*)", "* )").replace("(*", "( *")
+            out.append("(* %s *)\n%s\n" % (src[:1200], txt))
+        except Exception as e:  # noqa
+            fallbacks.append("%s: %s" % (name, e))
+            out.append("(* FALLBACK %s: %s *)\n%s\n" % (name, str(e).replace("*)", ""), TS_TWINS[name]))
+
+    def one(xs, what):
+        if len(xs) != 1:
+            raise Untranslatable("%s: %d matches" % (what, len(xs)))
+        return xs[0]
+
+    def zl(l):
+        return "[" + "; ".join(str(x) for x in l) + "]"
+
+    def snprintf_calls(stmts):
+        return [c for s_ in stmts for c in ([s_] if s_.get("kind") == "CallExpr" else [])
+                if cxxast.strip(kids(c)[0]).get("referencedDecl", {}).get("name") == "snprintf"]
+
+    def buf_decl(fn):
+        vd = one(list(cxxast.find(cxxast.body(fn), "VarDecl", "buf")), "declarations of buf")
+        mm = re.match(r"char\[(\d+)\]$", vd.get("type", {}).get("qualType", ""))
+        if not mm:
+            raise Untranslatable("buf is not a char array")
+        return int(mm.group(1))
+
+    def printf_site(tr, call, bufsize_expected=True):
+        """(format codes, argument terms) of snprintf(buf, sizeof buf, "literal", args...)"""
+        a = kids(call)
+        if cxxast.strip(a[1]).get("referencedDecl", {}).get("name") != "buf":
+            raise Untranslatable("snprintf target is not buf")
+        sz = cxxast.strip(a[2])
+        if sz.get("kind") != "UnaryExprOrTypeTraitExpr" or [x.get("referencedDecl", {}).get("name") for x in cxxast.find(sz, "DeclRefExpr")] != ["buf"]:
+            raise Untranslatable("snprintf size is not sizeof buf")
+        lit = cxxast.strip(a[3])
+        if lit.get("kind") != "StringLiteral":
+            raise Untranslatable("format is not a literal")
+        fmt = [ord(ch) for ch in json_string(lit["value"])]
+        args = [tr.expr(x) for x in a[4:]]
+        return fmt, args
+
+    def lets(binds):
+        return "".join("  let %s := %s in\n" % (p_, t) for (p_, t, o) in binds if t is not None)
+
+    def fits_body(binds, extra):
+        lines, depth = [], 0
+        for (p_, t, o) in binds:
+            if o:
+                lines.append("  " + render_obl(o) + " &&")
+            if t is not None:
+                lines.append("  (let %s := %s in" % (p_, t))
+                depth += 1
+        if extra:
+            lines.append("  " + render_obl(extra) + " &&")
+        lines.append("  true" + ")" * depth + ".")
+        return "\n".join(lines)
+
+    TSCC, TSH, DCC = "muduo/base/Timestamp.cc", "muduo/base/Timestamp.h", "muduo/base/Date.cc"
+
+    def new_tr():
+        tr = Tr(Ctx(G, {}))
+        tr.locals = set()
+        tr.assigned_fields = {}
+        return tr
+
+    def tostring():
+        fn = cxxast.function_decl(TSCC, "muduo::Timestamp::toString")
+        st = kids(cxxast.body(fn))
+        tr = new_tr()
+        binds = []
+        for s_ in st:
+            if s_.get("kind") == "DeclStmt" and kids(s_)[0].get("name") != "buf":
+                binds += tr.stmt(s_)
+        call = one(snprintf_calls(st), "snprintf calls")
+        fmt, args = printf_site(tr, call)
+        extra = tr.take_obl()
+        p_ = "(microSecondsSinceEpoch_ : Z)"
+        txt = "Definition Timestamp_toString_args %s : list Z :=\n%s  %s.\n" % (p_, lets(binds), zl(args))
+        txt += "Definition Timestamp_toString_args_fits %s : bool :=\n%s\n" % (p_, fits_body(binds, extra))
+        txt += "Definition Timestamp_toString_fmt : list Z := %s.\nDefinition Timestamp_toString_bufsize : Z := %d." % (zl(fmt), buf_decl(fn))
+        return txt, TSCC + ": " + cxxast.src_text(fn, TSCC)
+    emit("Timestamp_toString", tostring)
+
+    def toformatted():
+        fn = cxxast.function_decl(TSCC, "muduo::Timestamp::toFormattedString")
+        ps = [p_ for p_ in kids(fn) if p_.get("kind") == "ParmVarDecl"]
+        if len(ps) != 1 or ps[0].get("type", {}).get("qualType") != "bool":
+            raise Untranslatable("parameter")
+        st = kids(cxxast.body(fn))
+        tr = new_tr()
+        # time_t seconds = ...;  struct tm tm_time;  gmtime_r(&seconds, &tm_time);
+        secdecl = [s_ for s_ in st if s_.get("kind") == "DeclStmt" and kids(s_)[0].get("name") == "seconds"]
+        b0 = tr.stmt(one(secdecl, "declaration of seconds"))
+        gm = [c for s_ in st for c in cxxast.find(s_, "CallExpr") if cxxast.strip(kids(c)[0]).get("referencedDecl", {}).get("name") == "gmtime_r"]
+        g = one(gm, "gmtime_r calls")
+        a1 = [x.get("referencedDecl", {}).get("name") for x in cxxast.find(kids(g)[1], "DeclRefExpr")]
+        a2 = [x.get("referencedDecl", {}).get("name") for x in cxxast.find(kids(g)[2], "DeclRefExpr")]
+        if a1 != ["seconds"] or len(a2) != 1:
+            raise Untranslatable("gmtime_r arguments")
+        tmname = a2[0]
+        tr.c.records[tmname] = "tm"
+        tr.locals.add(tmname)
+        fields = ["tm_year", "tm_mon", "tm_mday", "tm_hour", "tm_min", "tm_sec"]
+        params = "(microSecondsSinceEpoch_ %s : Z)" % " ".join(ident(tmname + "_" + f) for f in fields)
+        ifs = one([s_ for s_ in st if s_.get("kind") == "IfStmt"], "if statements")
+        ks = kids(ifs)
+        if cxxast.strip(ks[0]).get("referencedDecl", {}).get("name") != ps[0]["name"] or len(ks) != 3:
+            raise Untranslatable("if (showMicroseconds) ... else ...")
+        txt = "Definition Timestamp_toFormattedString_seconds (microSecondsSinceEpoch_ : Z) : Z :=\n%s  seconds.\n" % lets(b0)
+        txt += "Definition Timestamp_toFormattedString_seconds_fits (microSecondsSinceEpoch_ : Z) : bool :=\n%s\n" % fits_body(b0, [])
+        for tag, blk in (("micro", ks[1]), ("plain", ks[2])):
+            bst = kids(blk) if blk.get("kind") == "CompoundStmt" else [blk]
+            binds = []
+            for s_ in bst:
+                if s_.get("kind") == "DeclStmt":
+                    binds += tr.stmt(s_)
+            call = one(snprintf_calls(bst), "snprintf calls in a branch")
+            fmt, args = printf_site(tr, call)
+            extra = tr.take_obl()
+            used = set(re.findall(r"\b%s_(tm_\w+)\b" % re.escape(tmname), " ".join(args)))
+            if not used <= set(fields):
+                raise Untranslatable("struct tm fields %s" % sorted(used))
+            txt += "Definition Timestamp_toFormattedString_args_%s %s : list Z :=\n%s  %s.\n" % (tag, params, lets(binds), zl(args))
+            txt += "Definition Timestamp_toFormattedString_args_%s_fits %s : bool :=\n%s\n" % (tag, params, fits_body(binds, extra))
+            txt += "Definition Timestamp_toFormattedString_fmt_%s : list Z := %s.\n" % (tag, zl(fmt))
+        txt += "Definition Timestamp_toFormattedString_bufsize : Z := %d." % buf_decl(fn)
+        txt = txt.replace(ident(tmname + "_"), "tm_time_") if tmname != "tm_time" else txt
+        return txt, TSCC + ": " + cxxast.src_text(fn, TSCC)
+    emit("Timestamp_toFormattedString", toformatted)
+
+    def simple_fn(relfile, qual, gname, nparams=None, pick=None):
+        fns = fn_candidates(relfile, qual, kinds=("FunctionDecl", "CXXMethodDecl"))
+        if pick:
+            fns = [f for f in fns if pick(f)]
+        fn = one(fns, qual)
+        tr = new_tr()
+        params, binds, result = tr.function(fn, gname)
+        return fn, params, binds, result
+
+    def seconds_since():
+        fn, params, binds, result = simple_fn(TSH, "muduo::Timestamp::secondsSinceEpoch", "Timestamp_secondsSinceEpoch")
+        return render("Timestamp_secondsSinceEpoch", ["microSecondsSinceEpoch_"] + params, binds, result, cxxast.src_text(fn, TSH), TSH).split("\n", 1)[1], \
+            TSH + ": " + cxxast.src_text(fn, TSH)
+    emit("Timestamp_secondsSinceEpoch", seconds_since)
+
+    def from_unix():
+        two = lambda f: len([p_ for p_ in kids(f) if p_.get("kind") == "ParmVarDecl"]) == 2
+        fns = [f for f in fn_candidates(TSH, "muduo::Timestamp::fromUnixTime", kinds=("CXXMethodDecl",)) if two(f)]
+        fn = one(fns, "fromUnixTime(time_t, int)")
+        ps = [p_["name"] for p_ in kids(fn) if p_.get("kind") == "ParmVarDecl"]
+        st = kids(cxxast.body(fn))
+        r = one([s_ for s_ in st if s_.get("kind") == "ReturnStmt"], "return")
+        # return Timestamp(<int64 expression>)
+        e = kids(r)[0]
+        while e.get("kind") in ("CXXFunctionalCastExpr", "CXXConstructExpr", "ExprWithCleanups", "MaterializeTemporaryExpr", "ImplicitCastExpr", "CXXTemporaryObjectExpr") \
+                and "Timestamp" in e.get("type", {}).get("qualType", "") and len(kids(e)) == 1:
+            e = kids(e)[0]
+        tr = new_tr()
+        tr.locals |= set(ps)
+        t = tr.expr(e)
+        ob = tr.take_obl()
+        txt = "Definition Timestamp_fromUnixTime (%s : Z) := %s.\n" % (" ".join(ident(x) for x in ps), t)
+        txt += "Definition Timestamp_fromUnixTime_fits (%s : Z) : bool := %s." % (" ".join(ident(x) for x in ps), render_obl(ob) if ob else "true")
+        return txt, TSH + ": " + cxxast.src_text(fn, TSH)
+    emit("Timestamp_fromUnixTime", from_unix)
+
+    def accessor_expr(tr, n, names):
+        """`x.microSecondsSinceEpoch()` on a Timestamp parameter -> that parameter's value"""
+        raise Untranslatable("unused")
+
+    def time_difference():
+        fn = one(fn_candidates(TSH, "muduo::timeDifference", kinds=("FunctionDecl",)), "timeDifference")
+        ps = [p_["name"] for p_ in kids(fn) if p_.get("kind") == "ParmVarDecl"]
+        st = kids(cxxast.body(fn))
+        if len(st) != 2 or len(ps) != 2:
+            raise Untranslatable("shape")
+        v = kids(st[0])[0]
+        e = cxxast.strip(kids(v)[0])
+        if e.get("kind") != "BinaryOperator" or e.get("opcode") != "-":
+            raise Untranslatable("diff is not a difference")
+
+        def acc(n):
+            n = cxxast.strip(n)
+            if n.get("kind") == "CXXMemberCallExpr" and kids(n)[0].get("name") == "microSecondsSinceEpoch":
+                o = cxxast.strip(kids(kids(n)[0])[0]).get("referencedDecl", {}).get("name")
+                if o in ps:
+                    return ident(o)
+            raise Untranslatable("operand is not <parameter>.microSecondsSinceEpoch()")
+        a, b = acc(kids(e)[0]), acc(kids(e)[1])
+        r = cxxast.strip(kids(st[1])[0])
+        if r.get("kind") != "BinaryOperator" or r.get("opcode") != "/" or "double" not in r.get("type", {}).get("qualType", ""):
+            raise Untranslatable("result is not a double division")
+        num = [x.get("referencedDecl", {}).get("name") for x in cxxast.find(kids(r)[0], "DeclRefExpr")]
+        den = [x.get("referencedDecl", {}).get("name") for x in cxxast.find(kids(r)[1], "DeclRefExpr")]
+        if num != [v["name"]] or den != ["kMicroSecondsPerSecond"]:
+            raise Untranslatable("division operands")
+        txt = "Definition Timestamp_timeDifference_diff (%s : Z) : Z := (%s - %s).\nDefinition Timestamp_timeDifference_divisor : Z := kMicroSecondsPerSecond." % (
+            " ".join(ident(x) for x in ps), a, b)
+        return txt, TSH + ": " + cxxast.src_text(fn, TSH)
+    emit("Timestamp_timeDifference_diff", time_difference)
+
+    def add_time():
+        fn = one(fn_candidates(TSH, "muduo::addTime", kinds=("FunctionDecl",)), "addTime")
+        ps = [p_["name"] for p_ in kids(fn) if p_.get("kind") == "ParmVarDecl"]
+        st = kids(cxxast.body(fn))
+        if len(st) != 2 or len(ps) != 2:
+            raise Untranslatable("shape")
+        v = kids(st[0])[0]
+        # int64_t delta = static_cast<int64_t>(seconds * Timestamp::kMicroSecondsPerSecond);
+        mul = [x for x in cxxast.walk(v) if x.get("kind") == "BinaryOperator"]
+        m = one(mul, "operators in the initialiser of delta")
+        names = [x.get("referencedDecl", {}).get("name") for x in cxxast.find(m, "DeclRefExpr")]
+        if m.get("opcode") != "*" or "double" not in m.get("type", {}).get("qualType", "") or names != [ps[1], "kMicroSecondsPerSecond"] \
+           or base_type(v.get("type", {}).get("qualType", "")) not in INT64:
+            raise Untranslatable("delta is not (int64_t)(seconds * kMicroSecondsPerSecond)")
+        e = kids(st[1])[0]
+        while e.get("kind") in ("CXXFunctionalCastExpr", "CXXConstructExpr", "ExprWithCleanups", "MaterializeTemporaryExpr", "ImplicitCastExpr", "CXXTemporaryObjectExpr") \
+                and "Timestamp" in e.get("type", {}).get("qualType", "") and len(kids(e)) == 1:
+            e = kids(e)[0]
+        e = cxxast.strip(e)
+        if e.get("kind") != "BinaryOperator" or e.get("opcode") != "+":
+            raise Untranslatable("result is not a sum")
+        l, r = cxxast.strip(kids(e)[0]), cxxast.strip(kids(e)[1])
+        lo = cxxast.strip(kids(kids(l)[0])[0]).get("referencedDecl", {}).get("name") if l.get("kind") == "CXXMemberCallExpr" else None
+        if lo != ps[0] or kids(l)[0].get("name") != "microSecondsSinceEpoch" or r.get("referencedDecl", {}).get("name") != v["name"]:
+            raise Untranslatable("result is not timestamp.microSecondsSinceEpoch() + delta")
+        txt = "Definition Timestamp_addTime (%s delta : Z) : Z := (%s + delta).\nDefinition Timestamp_addTime_factor : Z := kMicroSecondsPerSecond." % (ident(ps[0]), ident(ps[0]))
+        return txt, TSH + ": " + cxxast.src_text(fn, TSH)
+    emit("Timestamp_addTime", add_time)
+
+    def iso():
+        fn = cxxast.function_decl(DCC, "muduo::Date::toIsoString")
+        st = kids(cxxast.body(fn))
+        # YearMonthDay ymd(yearMonthDay());
+        vd = [kids(s_)[0] for s_ in st if s_.get("kind") == "DeclStmt" and kids(s_)[0].get("name") != "buf"]
+        v = one(vd, "record declarations")
+        if base_type(v.get("type", {}).get("qualType", "")) != "YearMonthDay" or \
+           not [m for m in cxxast.find(v, "MemberExpr") if m.get("name") == "yearMonthDay"]:
+            raise Untranslatable("ymd is not yearMonthDay()")
+        tr = new_tr()
+        tr.c.records[v["name"]] = "YearMonthDay"
+        tr.locals.add(v["name"])
+        call = one(snprintf_calls(st), "snprintf calls")
+        fmt, args = printf_site(tr, call)
+        names = [ident(v["name"] + "_" + f) for f in RECORDS["YearMonthDay"]]
+        txt = "Definition Date_toIsoString_args (%s : Z) : list Z := %s.\n" % (" ".join(names), zl(args))
+        txt = txt.replace(ident(v["name"]) + "_", "ymd_")
+        txt += "Definition Date_toIsoString_fmt : list Z := %s.\nDefinition Date_toIsoString_bufsize : Z := %d." % (zl(fmt), buf_decl(fn))
+        return txt, DCC + ": " + cxxast.src_text(fn, DCC)
+    emit("Date_toIsoString", iso)
+
+    txt = "\n".join(out) + "\n"
+    path = os.path.join(cxxast.ROOT, "coq/Gen_C20Ts.v")
+    old = open(path).read() if os.path.exists(path) else None
+    if old != txt:
+        open(path, "w").write(txt)
+    for f in fallbacks:
+        print("FALLBACK", f)
+    return 0
+
+
 if __name__ == "__main__":
     rc = main()
     rc2 = main_net()
-    sys.exit(rc or rc2)
+    rc3 = main_tz()
+    rc4 = main_ts()
+    sys.exit(rc or rc2 or rc3 or rc4)
